@@ -21,6 +21,7 @@ LEVEL_TEXT = ("seeded search over datasets x rebuild routes x insertion orders x
               "with ranking equality")
 ASSUMPTIONS = ["equality oracle = collections.Counter over tuples of frozensets of (typed) element values"]
 EXPECTED_PROBES = ["equal_pairs", "unequal_pairs", "collision_pool", "reordered_bucket", "near_miss", "derived_route",
+                   "near_miss_same_summaries",
                    "edited_in_place"]
 STATES_MEASURE = "distinct (variant kind, expected verdict, observed verdict) triples"
 
@@ -44,7 +45,8 @@ def gen_case(st, tier, env):
         kind = w.choice(["permute", "reinsertion", "reinsertion", "reverse_buckets", "as_elements", "rename",
                          "sub_problem_all", "unified", "file", "move_element", "split_bucket", "merge_buckets",
                          "multiplicity", "swap_buckets", "replace_element", "blank_name", "comma_name", "self",
-                         "edit_in_place", "edit_in_place", "twin_name", "respell"])
+                         "edit_in_place", "edit_in_place", "twin_name", "respell", "exchange_positions",
+                         "exchange_positions", "swap_names"])
         new = [[list(b) for b in r] for r in rk]
         spec = dict(base)
         v = {"kind": kind}
@@ -106,6 +108,39 @@ def gen_case(st, tier, env):
             if cand:
                 i, j = w.choice(cand)
                 new[i][j], new[i][j + 1] = new[i][j + 1], new[i][j]
+        elif kind == "exchange_positions":
+            # a near-miss that keeps every summary a shortcut could compare: one element exchanges its bucket index
+            # between two rankings (same universe, same sizes, same number of buckets per ranking, same multiset of
+            # positions per element), so only the joint content of the rankings tells the two datasets apart
+            cand = []
+            for i in range(len(new)):
+                for k2 in range(len(new)):
+                    if i >= k2:
+                        continue
+                    for a_, ba in enumerate(new[i]):
+                        for b_, bb in enumerate(new[k2]):
+                            if a_ != b_ and len(ba) > 1 and len(bb) > 1 and a_ < len(new[k2]) and b_ < len(new[i]):
+                                cand += [(i, k2, a_, b_, x) for x in ba if x in bb]
+            if cand:
+                i, k2, a_, b_, x = w.choice(cand)
+                new[i][a_].remove(x)
+                new[i][b_].append(x)
+                new[k2][b_].remove(x)
+                new[k2][a_].append(x)
+            else:
+                kind = v["kind"] = "swap_names"
+        if kind == "swap_names":
+            # two names exchanged in some of the rankings (possibly all): shapes are untouched
+            els = _all_elems(new)
+            if len(set(map(repr, els))) > 1 and new:
+                x = w.choice(els)
+                y = w.choice([e for e in els if repr(e) != repr(x)])
+                which = [i for i in range(len(new)) if w.random() < 0.5] or [w.randrange(len(new))]
+                if w.random() < 0.25:
+                    which = list(range(len(new)))
+                for i in which:
+                    new[i] = [[y if e == x and type(e) is type(x) else x if e == y and type(e) is type(y) else e
+                               for e in b] for b in new[i]]
         elif kind == "replace_element":
             els = _all_elems(new)
             if els:
@@ -237,8 +272,10 @@ def run_case(case, ctx):
         if kind in ("reinsertion", "reverse_buckets") and any(len(bk) > 1 for r in ma for bk in r):
             ctx.probe("reordered_bucket")
         if kind in ("move_element", "split_bucket", "merge_buckets", "multiplicity", "swap_buckets", "replace_element",
-                    "blank_name", "comma_name") and not expected:
+                    "blank_name", "comma_name", "exchange_positions", "swap_names") and not expected:
             ctx.probe("near_miss")
+            if kind in ("exchange_positions", "swap_names"):
+                ctx.probe("near_miss_same_summaries")
         if len(ma) > 1 or any(len(bk) > 1 for r in ma for bk in r):
             ctx.probe("pairs_nontrivial")
         ctx.probe("equal_pairs" if expected else "unequal_pairs")
